@@ -127,7 +127,7 @@ func init() {
 				copyTimeRun(c, "printf")
 				for i, pc := range c18Recursive() {
 					pc, i := pc, i
-					c.Do(func() any { return map[string]any{"recursive": i + 1} }, func() *fw.Violation { v, _, _ := pc.check(c); return v })
+					c.Do(func() any { return map[string]any{"recursive": i + 1} }, func() *fw.Violation { return pc.mustCheck(c, "recursive printf") })
 				}
 				for _, rev := range []bool{false, true} {
 					rev := rev
